@@ -101,7 +101,10 @@ def run(prog: Program, rep: Report, tier: str) -> None:
         rep.ob('C19-D2 scc-protocol', sc.fq(), f"for {v} in {norm(l.iter)}: visit({v}) iff {v} not in {visited_set}", sc.loc(l), not bad, '; '.join(bad) if bad else 'a visit starts from every unvisited vertex')
         for n in calls:
             for x in ast.walk(scfg.nodes[n].stmt):
-                if isinstance(x, ast.Call) and isinstance(x.func, ast.Name): visit_name = x.func.id
+                if isinstance(x, ast.Call) and isinstance(x.func, ast.Name) and x.args and norm(x.args[0]) == v and prog.has_func(UT, f"scc.{x.func.id}"):
+                    visit_name = x.func.id
+    if not (visit_name and prog.has_func(UT, f"scc.{visit_name}")):
+        raise AnalysisError('C19-D2: the recursive visit function of scc was not found (the outer loop calls no local function with the vertex); idiom not recognised')
     if visit_name and prog.has_func(UT, f"scc.{visit_name}"):
         vf = prog.func(UT, f"scc.{visit_name}")
         vcfg = cfg_of(vf)
@@ -111,6 +114,21 @@ def run(prog: Program, rep: Report, tier: str) -> None:
         marks = [n for n in own_nodes(vf.node) if isinstance(n, ast.Assign) and n.lineno < first_loop and any(isinstance(t, ast.Subscript) and norm(t.slice) == v for t in n.targets)]
         pushes = [n for n in own_nodes(vf.node) if isinstance(n, ast.Call) and callee_last(n) == 'append' and n.args and norm(n.args[0]) == v and n.lineno < first_loop]
         rep.ob('C19-D2 scc-protocol', vf.fq(), f"{v} is marked visited and pushed before its successors are explored", vf.loc(), bool(marks) and bool(pushes), '')
+        # the discovery number is a counter over *all* visits (unique per vertex): the value stored at entry comes from a variable of
+        # the enclosing scope (or a growing table's size) that every visit advances -- not from a parameter such as the depth
+        vparams = set(vf.param_names())
+        for mk in marks[:1]:
+            src_names = {x.id for x in ast.walk(mk.value) if isinstance(x, ast.Name)}
+            by_len = any(isinstance(x, ast.Call) and callee_last(x) == 'len' and x.args and norm(x.args[0]) == visited_set for x in ast.walk(mk.value))
+            advanced = any(isinstance(x, ast.AugAssign) and isinstance(x.target, ast.Name) and x.target.id in src_names and isinstance(x.op, ast.Add) for x in own_nodes(vf.node)) \
+                or any(isinstance(x, ast.Assign) and len(x.targets) == 1 and isinstance(x.targets[0], ast.Name) and x.targets[0].id in src_names
+                       and isinstance(x.value, ast.BinOp) and isinstance(x.value.op, ast.Add) and x.targets[0].id in {y.id for y in ast.walk(x.value) if isinstance(y, ast.Name)} for x in own_nodes(vf.node))
+            from_param = bool(src_names & vparams)
+            okc = by_len or (advanced and not from_param)
+            rep.ob('C19-D2 scc-protocol', vf.fq(), f"{norm(mk)[:60]}: discovery numbers come from one counter advanced by every visit", vf.loc(mk), okc,
+                   'unique, increasing discovery numbers' if okc else
+                   ('the number is taken from a parameter of the visit (the depth of the vertex, say): vertices in different subtrees share numbers, so an edge back into an earlier subtree does not lower the low-link' if from_param else
+                    'no statement of the visit advances the counter the number is taken from'))
         # recursion into every unvisited successor
         sl = [n for n in own_nodes(vf.node) if isinstance(n, ast.For) and norm(n.iter) in (f"{g0}[{v}]", f"{g0}[{v}].keys()")]
         rep.floor('C19-D2 successor loop', len(sl), 1)
@@ -151,10 +169,11 @@ def run(prog: Program, rep: Report, tier: str) -> None:
     for mod, fn in (('fggs.sum_product', 'sum_products'), ('fggs.viterbi', 'viterbi')):
         f = prog.func(mod, fn)
         fp = f.positional_params()[0]
-        ls = [n for n in own_nodes(f.node) if isinstance(n, ast.For) and 'scc' in {callee_last(x) for x in ast.walk(n.iter) if isinstance(x, ast.Call)}]
+        # the component list may be given a name first (`comps = scc(nonterminal_graph(fgg))` under a timing context manager)
+        ls = [n for n in own_nodes(f.node) if isinstance(n, ast.For) and 'scc' in {callee_last(x) for x in ast.walk(inline_temps(f.node, n.iter)) if isinstance(x, ast.Call)}]
         for l in ls:
             n_cons += 1
-            ok = norm(l.iter) == f"scc(nonterminal_graph({fp}))"
+            ok = norm(inline_temps(f.node, l.iter)) == f"scc(nonterminal_graph({fp}))"
             rep.ob('C19-D3 consumers', f.fq(), f"for {norm(l.target)} in {norm(l.iter)}", f.loc(l), ok,
                    'components are processed in the order scc returns them' if ok else 'the component list is reordered, filtered or built from something else than nonterminal_graph(<fgg>)')
             # every label of the component receives a value: an `.update(...)` on the table of computed values at the loop's top level, unconditionally
